@@ -16,7 +16,9 @@ import re
 from harness import oracles
 
 ID = "C10"
-RULE = ("simple loop-free graphs (arbitrary vertex names / insertion order) x max_size in {0,2,3,4} (random graphs: 0,2..7) x a scripted "
+RULE = ("simple loop-free graphs (arbitrary vertex names / insertion order) x max_size in {0,2,3,4} (random graphs: 0,2..7; "
+        "passed as a Python int, and in 25-40 % of the cases as np.int64 / int32 / int16 / intp / uint8, bool, a subclass "
+        "of int, or not passed at all when 0) x a scripted "
         "shuffle of the full clique list; all graphs on <= 4 vertices and (thorough: all / quick: a seeded third of) "
         "the 1024 labelled graphs on 5 vertices, each with identity, reversed, random full permutations, random "
         "per-size-class permutations and ALL permutations of the whole list (when it has <= 6 entries) or of the 2-/3-clique "
@@ -141,12 +143,46 @@ class SchedScript:
 
 
 # ------------------------------------------------------------------ cases
-def _case(nodes, edges, ms, sched, prior=None):
+def _case(nodes, edges, ms, sched, prior=None, mstype=None):
     c = {"nodes": list(nodes), "edges": [list(e) for e in edges], "ms": ms, "sched": sched}
     if prior:
         # an earlier MPCC call in the same process: on the same graph object (no "nodes" key) or on another graph
         c["prior"] = prior
+    if mstype and mstype != "int":
+        # the number type max_size is passed in (default: a Python int)
+        c["mstype"] = mstype
     return c
+
+
+# every integer type a caller may hold the limit in (e.g. max() of a numpy array of motif sizes)
+def _ms_types_for(ms):
+    out = ["np.int64", "np.int32", "np.int16", "np.intp", "intsub"]
+    if ms >= 0:
+        out.append("np.uint8")
+    if ms in (0, 1):
+        out.append("bool")
+    if ms == 0:
+        out.append("omitted")
+    return out
+
+
+def _pick_mstype(rng, ms, p=0.4):
+    return rng.choice(_ms_types_for(ms)) if rng.random() < p else None
+
+
+class _IntSub(int):
+    """a user-defined subclass of int (an IntEnum member behaves alike)"""
+
+
+def _ms_value(ms, typ):
+    if not typ or typ == "int":
+        return ms
+    if typ == "bool":
+        return bool(ms)
+    if typ == "intsub":
+        return _IntSub(ms)
+    import numpy as np
+    return getattr(np, typ[3:])(ms)
 
 
 def corpus():
@@ -191,6 +227,13 @@ def corpus():
          [list(e) for e in itertools.combinations([2, 3, 4, 5], 2) if list(e) != [2, 3]] + [[5, 6], [5, 7], [6, 7]]
     for ms in (0, 2, 3, 4, 5):
         out.append(_case([0, 1, 2, 3, 4, 5, 6, 7], g2, ms, ["rank", 31337 * (ms + 1)]))
+    # the limit held in another integer type (numpy scalars, bool, a subclass of int) or not passed at all
+    for i, ms in enumerate((0, 2, 3, 3, 4, 4, 5)):
+        for j, t in enumerate(_ms_types_for(ms)):
+            if (i + j) % 2 == 0:
+                out.append(_case([0, 1, 2, 3, 4, 5, 6, 7], g2, ms, ["rank", 4242 * (i + 3 * j + 1)], None, t))
+    out.append(_case([4, 0, 3, 1, 2], k5, 3, ["rev"], {"ms": 4, "sched": ["id"], "mstype": "np.int32"}, "np.int64"))
+    out.append(_case([4, 0, 3, 1, 2], k5, 2, ["id"], {"ms": 0, "sched": ["id"], "mstype": "omitted"}, "np.uint8"))
     return out
 
 
@@ -331,7 +374,7 @@ def generate(rng, tier):
                 else:
                     use = scheds
                 for s in use:
-                    yield _case(nodes, edges, ms, s)
+                    yield _case(nodes, edges, ms, s, None, _pick_mstype(rng, ms, 0.25))
                 if n <= 4 and edges:
                     # history on one object: cover, toggle one edge, cover again
                     e = rng.choice(edges)
@@ -370,12 +413,15 @@ def generate(rng, tier):
         elif k < 0.36:  # another graph with the SAME node list and edge count first (cache keyed too coarsely)
             prs = [list(pp) for pp in itertools.combinations(sorted(nodes), 2)]
             prior = {"nodes": list(nodes), "edges": rng.sample(prs, len(edges)), "ms": ms, "sched": s}
-        yield _case(nodes, edges, ms, s, prior)
+        if prior and rng.random() < 0.4:
+            prior["mstype"] = rng.choice(_ms_types_for(prior["ms"]))
+        yield _case(nodes, edges, ms, s, prior, _pick_mstype(rng, ms, 0.4))
     # 3. outside the property's domain (correspondence only): max_size = 1 labels no edge, a negative
     #    max_size means unbounded (`max_size > 0` is false)
     for _ in range(40 if quick else 400):
         nodes, edges = _random_graph(rng)
-        yield _case(nodes, edges, rng.choice([1, -1, -3]), ["rank", rng.randrange(10**12)])
+        ms = rng.choice([1, -1, -3])
+        yield _case(nodes, edges, ms, ["rank", rng.randrange(10**12)], None, _pick_mstype(rng, ms, 0.4))
 
 
 # ------------------------------------------------------------------ implementation side
@@ -443,7 +489,7 @@ def _diff_snapshots(a, b):
     return data, order
 
 
-def _observe(M, G, ms, spec, seed):
+def _observe(M, G, ms, spec, seed, mstype=None):
     """one MPCC call on G under the scripted schedule; everything observable before / after"""
     before = _snapshot(G)
     before_nodes = list(G.nodes)
@@ -453,7 +499,7 @@ def _observe(M, G, ms, spec, seed):
     _pyrandom.seed(seed)  # primitives the script does not patch (sample, randint, ...) stay deterministic
     try:
         with oracles.scripted(s, extra_modules=[(M, "shuffle")]):
-            ret = M.MPCC(G, ms)
+            ret = M.MPCC(G) if mstype == "omitted" else M.MPCC(G, _ms_value(ms, mstype))
     finally:
         _pyrandom.setstate(state)
     after = _snapshot(G)
@@ -495,7 +541,7 @@ def impl(case):
         # a history on ONE object: call, let the caller change the graph, call again on the SAME object;
         # (or an unrelated graph first: interleaved inputs on whatever the module might cache)
         H = _build(prior["nodes"], prior["edges"]) if "nodes" in prior else G
-        prior_obs = _observe(M, H, prior["ms"], prior["sched"], seed + 1)
+        prior_obs = _observe(M, H, prior["ms"], prior["sched"], seed + 1, prior.get("mstype"))
         mut = prior.get("mutate")
         if mut and H is G:
             G.remove_edges_from([tuple(e) for e in mut.get("del_edges", [])])
@@ -503,7 +549,7 @@ def impl(case):
             for i, v in enumerate(mut.get("add_nodes", [])):
                 G.add_node(v, w=50 + i, tag=["late", v])
             _add_edges(G, mut.get("add_edges", []), base=500)
-    obs = _observe(M, G, case["ms"], case["sched"], seed)
+    obs = _observe(M, G, case["ms"], case["sched"], seed, case.get("mstype"))
     obs["prior_obs"] = prior_obs
     return obs
 
@@ -692,10 +738,23 @@ def nontrivial_key(case, impl_obs):
     if not big:
         return None
     return [impl_obs["before_nodes"], sorted(_key(u, v) for u, v in impl_obs["before_edges"]), case["ms"],
-            _sched_for_model(impl_obs)[0], case.get("prior")]
+            _sched_for_model(impl_obs)[0], case.get("prior"), case.get("mstype")]
 
 
 def shrink(case):
+    """smaller cases; the number type of the limit is kept (and dropped as a separate step)"""
+    t = case.get("mstype")
+    for c in _shrink0(case):
+        if t and (t != "omitted" or c["ms"] == 0):
+            c["mstype"] = t
+        yield c
+    if t:
+        yield {k: v for k, v in case.items() if k != "mstype"}
+    if case.get("prior") and case["prior"].get("mstype"):
+        yield dict(case, prior={k: v for k, v in case["prior"].items() if k != "mstype"})
+
+
+def _shrink0(case):
     nodes, edges, ms, sched = case["nodes"], case["edges"], case["ms"], case["sched"]
     prior = case.get("prior")
     if prior:
@@ -730,7 +789,8 @@ def shrink(case):
 
 
 def describe(case, impl_obs):
-    d = {"nodes": case["nodes"], "edges": case["edges"], "max_size": case["ms"], "schedule": case["sched"]}
+    d = {"nodes": case["nodes"], "edges": case["edges"], "max_size": case["ms"], "schedule": case["sched"],
+         "max_size_type": case.get("mstype", "int")}
     if case.get("prior"):
         d["prior_call"] = case["prior"]
     if isinstance(impl_obs, dict):
@@ -749,6 +809,8 @@ def histogram(cases):
         h[k] = h.get(k, 0) + 1
         k = f"sched={c['sched'][0]}"
         h[k] = h.get(k, 0) + 1
+        k = f"max_size as {c.get('mstype', 'int')}"
+        h[k] = h.get(k, 0) + 1
         if c.get("prior"):
             k = ("prior_call_other_graph" if "nodes" in c["prior"] else
                  "prior_call_then_graph_edited" if c["prior"].get("mutate") else "prior_call_same_graph")
@@ -762,7 +824,9 @@ def search(rng, tier, seeds):
     for c in seeds:
         for s in _scheds_for(rng, c["nodes"], c["edges"], "quick", 10)[:60]:
             for ms in (c["ms"], 0, 2, 3):
-                batch.append(_case(c["nodes"], c["edges"], ms, s, c.get("prior")))
+                t = c.get("mstype")
+                batch.append(_case(c["nodes"], c["edges"], ms, s, c.get("prior"),
+                                   t if t in _ms_types_for(ms) else None))
         if len(batch) >= 300:
             yield batch
             batch = []
